@@ -27,6 +27,8 @@ func runC06(c *Ctx) {
 	c.Rule("C06.O5", "E4", "before the incoming bytes are joined to the carried ones, Parse rejects only on the terminal state and on ReadLimit (excluded by the property); any other per-call rejection would depend on where the stream was cut", 1)
 	c.Rule("C06.O6", "E4/SSA", "the index moves only by the loop's +1 or to start-1 after a counted body; the token start is set only to the index, the index+1, 0, or start + the body/chunk length: no jump is computed by looking ahead in the buffer", 2)
 	c.Rule("C06.O4", "E5", "only Parse stores to Parser.bytesCached", 1)
+	c.Rule("C06.O7", "E4/SSA", "Parse loads single bytes of the input only at the loop index: no look-ahead (data[i+1]) whose outcome depends on whether the next byte is already there", 1)
+	c06NoLookAhead(c)
 
 	parse := c.Fn("C06.O1", fnParse)
 	if parse == nil {
